@@ -66,8 +66,8 @@ pub enum Reg {
 fn set_prior(r: Reg, v: u64) {
     let c = cpu();
     match r {
-        Reg::Cr(n) => c.cr[n as usize] = v,
-        Reg::Dr(n) => c.dr[n as usize] = v,
+        Reg::Cr(n) => c.set_cr(n, v),
+        Reg::Dr(n) => c.set_dr(n, v),
         Reg::Msr(i) => c.msr_set(i, v),
         Reg::Xcr0 => c.set_xcr0(v),
     }
@@ -104,8 +104,8 @@ fn classify(t: &Trap, r: Reg) -> Acc {
 /// values must equal `writes`; at least `min_reads` reads.
 fn check_log(what: &str, r: Reg, writes: &[u64], min_reads: usize) -> CaseResult {
     let c = cpu();
-    ensure!(!c.log_overflow, "{}: trap log overflow", what);
-    ensure!(c.unexpected == 0, "{}: unexpected fault", what);
+    ensure!(!cpu().log_overflow, "{}: trap log overflow", what);
+    ensure!(cpu().unexpected == 0, "{}: unexpected fault", what);
     let log = c.take_log();
     let mut got_w = vec![];
     let mut reads = 0;
